@@ -1106,7 +1106,7 @@ package memberlist
 // Keyring lock invariant K: valid lengths, pairwise distinct (by content); the primary is element 0 by representation.
 //@ lock Keyring.l recv k
 //@   protects Keyring.keys, elems []byte
-//@   inv K [C17]: ringOK(k.keys)
+//@   inv K [C14,C17]: ringOK(k.keys)
 
 //@ func ValidateKey(key)
 //@   safety [C13,C17]
